@@ -34,6 +34,7 @@ def cases(tier):
     for init in range(len(INIT_STATES)):
         out.append({"name": "crash_restart_%s" % INIT_STATES[init], "what": "crash", "init": init, "nsub": nsub, "second_crash": tier == "thorough"})
     out.append({"name": "siblings", "what": "siblings", "nsub": 2})
+    out.append({"name": "siblings_same_name_other_directory", "what": "siblings", "nsub": 2, "layout": "dirs"})
     return out
 
 
@@ -176,17 +177,21 @@ def run_case(case):
 
     # ---- neighbouring aggregators in one directory
     OA, OB = "/d/scores.fold1.tsv", "/d/scores.fold2.tsv"      # sibling outputs whose names share everything up to the first dot
+    if case.get("layout") == "dirs":
+        OA, OB = "/d/model_a/results.tsv", "/d/model_b/results.tsv"      # equally named outputs in neighbouring directories
     nsteps = 2 + 2 * nsub
     ch = [z3.Int("step%d" % i) for i in range(nsteps)]
     base = [z3.And(c >= 0, c <= 1) for c in ch]
 
     def decode(m):
-        return {"what": "siblings", "subjects": subjects, "choices": [jsonable(c, m) for c in ch]}
+        return {"what": "siblings", "subjects": subjects, "choices": [jsonable(c, m) for c in ch], "layout": case.get("layout")}
     h = H(PROP, case["name"], decode, replay_kind="siblings", max_witnesses=10)
 
     def body():
         fs.__init__()
         fs.dirs.add("/d")
+        for d_ in ("/d/model_a", "/d/model_b", "/tmp"):
+            fs.dirs.add(d_)
         counter.before = None
         reset_process()
         aggs = {}
@@ -265,6 +270,10 @@ def real_siblings(case, mode, expect):
     tmp = tempfile.mkdtemp(prefix="pv_c17s_")
     subjects = case["subjects"]
     paths = {"A": os.path.join(tmp, "scores.fold1.tsv"), "B": os.path.join(tmp, "scores.fold2.tsv")}
+    if case.get("layout") == "dirs":
+        paths = {"A": os.path.join(tmp, "model_a", "results.tsv"), "B": os.path.join(tmp, "model_b", "results.tsv")}
+        for p_ in paths.values():
+            os.makedirs(os.path.dirname(p_), exist_ok=True)
     try:
         aggs, evs = {}, {}
         todo = {"A": ["ctor"] + list(subjects), "B": ["ctor"] + list(subjects)}
